@@ -8,9 +8,10 @@ CONSTANTS
   ResetChoices <- RepairedOnly
   TamperTags <- AllTags
   CacheChoices = {"none"}
+  AckCodeChoices <- CodeAcks
   Concurrent = TRUE
   RecordHist = FALSE
-INVARIANTS Agreement SuccessSound MutualGating ReplayRejected FaultNeverSuccess
+INVARIANTS Agreement SuccessSound MutualGating ReplayRejected FaultNeverSuccess CorruptionEndsBoth
 CONSTRAINT Mark
 POSTCONDITION TraceAccepted
 CHECK_DEADLOCK FALSE
